@@ -97,6 +97,25 @@ def check(case):
         rev = case['reverse']
         # the flag as callers produce it: a bool, an int, or a numpy bool from a comparison
         rev_arg = {'bool': bool, 'int': int, 'np': __import__('numpy').bool_}[case.get('reverse_as', 'bool')](rev)
+        if case.get('key_raises') is not None and not case['keyless'] and n:
+            # the key function fails for one example (StopIteration is what a bare next() raises): sort must fail
+            # too - a result that silently lacks examples is not a permutation
+            bad, ename = case['key_raises'][0] % n, case['key_raises'][1]
+            exc_t = {'StopIteration': StopIteration, 'ValueError': ValueError, 'KeyError': KeyError}[ename]
+
+            def failing_key(e):
+                if e['id'] == bad:
+                    raise exc_t('no sort value for this example')
+                return e['v']
+            try:
+                out = ds.sort(failing_key, reverse=rev_arg, **kw)
+                got = list(out)
+            except BaseException as e:  # noqa
+                if isinstance(e, (KeyboardInterrupt, SystemExit)):
+                    raise
+                return True
+            raise Violation('sort-swallowed-key-error', f'{desc}\nthe key function raised {ename} for example {bad}; '
+                                                        f'sort returned {[e["id"] for e in got]}')
         try:
             if case['keyless']:
                 out = ds.sort(reverse=rev_arg, **kw)
@@ -192,6 +211,9 @@ def st_case(draw):
         case['reverse'] = draw(st.booleans())
         case['sort_fn'] = draw(st.sampled_from(['sorted', 'sorted', 'wrapper', 'partial', 'rev_input', 'inverting']))
         case['reverse_as'] = draw(st.sampled_from(['bool', 'bool', 'int', 'np']))
+        if draw(st.integers(0, 5)) == 0:
+            case['key_raises'] = [draw(st.integers(0, 7)), draw(st.sampled_from(['StopIteration', 'StopIteration',
+                                                                                 'ValueError', 'KeyError']))]
         case['keyless'] = src == 'dict' and draw(st.booleans())
         if case['keyless'] and draw(st.booleans()):
             case['sort_fn'] = 'natural'
